@@ -416,6 +416,8 @@ PROPS["C05"] = dict(
               "pool of 3 so that they repeat, DUP or not), PUBREL (pending, unknown, already completed) and handshake timeouts (sweep of the "
               "in-flight table). Every write-producing step carries a fault plan: a subset of nodes whose write fails, as 'peer unreachable', "
               "'remote log refuses' or (local node) 'local log refuses'. A fixed part enumerates all 8 failure subsets x modes on 3 destinations. "
+              "Fault mode 'panic' (runs panic, panicrandom): the failing write panics instead of returning an error; the case runs in a child process, "
+              "which either dies (nothing acknowledged) or survives and is judged by the same oracle. "
               "Oracle (recording log wrappers on every node + packets read by the client): a payload is stored exactly once on every destination "
               "whose write was not failed and nowhere else; PUBACK/PUBCOMP exactly once iff no destination write failed; a QoS 2 payload is stored "
               "nowhere before its PUBREL, once after it, never for a PUBREL without pending handshake, never after the PUBREC expired, never twice."),
@@ -431,6 +433,9 @@ PROPS["C05"] = dict(
         dict(name="hang", pkg="c05", run="TestHangingRemote", timeout=400),
         dict(name="regress", pkg="c05", run="TestRegress", timeout=300),
         dict(name="subsets", pkg="c05", run="TestFaultSubsets", timeout=400),
+        # a write that fails by panicking (child processes: the unchanged broker dies, which acknowledges nothing; one that survives must not acknowledge)
+        dict(name="panic", pkg="c05", run="TestPanickingWrite$", timeout=400),
+        dict(name="panicrandom", pkg="c05", run="TestPanickingWriteRandom", checks=dict(quick=96, thorough=1600), shards=8, timeout=dict(quick=400, thorough=2400), shrinktime="60s"),
         dict(name="random", pkg="c05", run="TestRandom", checks=dict(quick=960, thorough=8000), shards=16, timeout=dict(quick=400, thorough=2400), shrinktime="90s"),
     ],
 )
